@@ -30,7 +30,8 @@ OWNERS = {
     "txsort/txsort.go": ["C18"],
     "coinset/coins.go": ["C19"],
 }
-MUT = "/verif/.build/mutate"
+ROOT = os.path.dirname(os.path.abspath(__file__))
+MUT = ROOT + "/.build/mutate"
 SCR = "/tmp/mutcamp/repo"
 OUT = "/tmp/mutcamp/out"
 RES = "/verif/mutation/results.jsonl"
@@ -44,7 +45,7 @@ def main():
     seed = int(sys.argv[2]) if len(sys.argv) > 2 else 1
     files = sys.argv[3:] or list(OWNERS)
     if not os.path.exists(MUT):
-        sh("go build -o /verif/.build/mutate .", cwd="/verif/mutate")
+        os.makedirs(ROOT + "/.build", exist_ok=True); sh(f"go build -o {MUT} .", cwd=ROOT + "/mutate")
     shutil.rmtree("/tmp/mutcamp", ignore_errors=True)
     os.makedirs("/tmp/mutcamp")
     sh(f"cp -r /repo {SCR}")
@@ -80,7 +81,7 @@ def main():
                         rec["checks"] = {}
                         for p in OWNERS[f]:
                             env = dict(ENV, VERIF_REPO=SCR, VERIF_OUT=OUT)
-                            rc, o = sh(f"/verif/check {p} quick", cwd="/verif", env=env, timeout=7200)
+                            rc, o = sh(f"{ROOT}/check {p} quick", cwd=ROOT, env=env, timeout=7200)
                             keys = [k for k in re.findall(r"^  key=(\S+)", o, re.M) if re.match(r"^[CT]\d\d/", k)]
                             rec["checks"][p] = {"exit": rc, "keys": keys[:4]}
                             if rc == 1:
